@@ -100,6 +100,18 @@ def _newer(srcdir, target):
 
 # ---------------------------------------------------------------- lean
 
+def factgen_errors():
+    """Extractor failures recorded by factgen in Generated/Facts.lean (fallback facts were written)."""
+    try:
+        txt = open(os.path.join(LEAN, "CdiModel", "Generated", "Facts.lean")).read()
+    except OSError:
+        return ["Generated/Facts.lean missing"]
+    m = re.search(r"def factgenErrors : List String := \[(.*)\]", txt)
+    if not m or not m.group(1).strip():
+        return []
+    return re.findall(r'"((?:[^"\\]|\\.)*)"', m.group(1))
+
+
 def lake_build(targets):
     rc, out, dt = run(["lake", "build"] + targets, cwd=LEAN, timeout=3000)
     return rc == 0, out, dt
